@@ -392,6 +392,11 @@ impl<'source> PeekableLexer<'source> {
             r is Ok && r->Ok_0 is None ==> final(self).current.span.start == old(self).current.span.start,
 //@end
 
+    /// `self.semantic_tokens.clone()` (derive(Clone) of the element type has no Verus spec)
+    #[verifier::external_body]
+    pub fn semantic_tokens(&self) -> (r: Vec<WithEmbeddedLocation<IsographSemanticToken>>)
+        ensures r@ == self.semantic_tokens@
+    { unimplemented!() }
 //@fn rel=crates/isograph_lang_parser/src/peekable_lexer.rs name=white_space_span within="impl<'source> PeekableLexer<'source>" vis=pub ret=r serves=C07
 //@contract
         requires self.inv(),
@@ -418,7 +423,11 @@ impl<'source> PeekableLexer<'source> {
 //@end
 
 // ---- stand-ins for the parser's payload (opaque: the cursor contracts do not depend on them) ----
-impl Location { pub fn from(e: EmbeddedLocation) -> (r: Location) ensures r.embedded == e { Location { embedded: e } } }
+impl From<EmbeddedLocation> for Location { #[verifier::external_body] fn from(e: EmbeddedLocation) -> Self { Location { embedded: e } } }
+impl Location {
+    #[verifier::external_body]
+    pub fn new(text_source: TextSource, span: Span) -> Location { unimplemented!() }
+}
 /// intern::string_key::StringKey and `str.intern()` (opaque: the cursor does not depend on them)
 #[derive(Clone, Copy)]
 pub struct StringKey(pub u32);
@@ -733,6 +742,106 @@ pub fn parse_type_annotation(tokens: &mut PeekableLexer<'_>) -> (r: DiagnosticRe
         final(tokens).inv(), //@O C07.O-5_parse_client_pointer_target_type_preserves_cursor_invariant
         final(tokens).same_literal(old(tokens)), final(tokens).monotone(old(tokens)),
         r is Ok ==> final(tokens).progressed(old(tokens)),
+//@end
+
+// ---- the three declarations and parse_iso_literal ---------------------------------------
+#[derive(Clone, Copy)] pub struct EntityName(pub StringKey);
+impl From<StringKey> for EntityName { #[verifier::external_body] fn from(k: StringKey) -> Self { EntityName(k) } }
+#[derive(Clone, Copy)] pub struct EntityNameWrapper(pub EntityName);
+#[derive(Clone, Copy)] pub struct ClientScalarSelectableName(pub StringKey);
+impl From<StringKey> for ClientScalarSelectableName { #[verifier::external_body] fn from(k: StringKey) -> Self { ClientScalarSelectableName(k) } }
+#[derive(Clone, Copy)] pub struct ClientScalarSelectableNameWrapper(pub ClientScalarSelectableName);
+impl From<SelectableName> for ClientScalarSelectableNameWrapper { #[verifier::external_body] fn from(k: SelectableName) -> Self { unimplemented!() } }
+#[derive(Clone, Copy)] pub struct ClientObjectSelectableNameWrapper(pub StringKey);
+impl From<SelectableName> for ClientObjectSelectableNameWrapper { #[verifier::external_body] fn from(k: SelectableName) -> Self { unimplemented!() } }
+#[derive(Clone, Copy)] pub struct ConstExportName(pub StringKey);
+impl From<StringKey> for ConstExportName { #[verifier::external_body] fn from(k: StringKey) -> Self { ConstExportName(k) } }
+#[derive(Clone, Copy)] pub struct IsoLiteralText(pub StringKey);
+impl From<StringKey> for IsoLiteralText { #[verifier::external_body] fn from(k: StringKey) -> Self { IsoLiteralText(k) } }
+#[derive(Clone, Copy)] pub struct RelativePathToSourceFile(pub StringKey);
+#[verifier::external_body]
+pub struct Description { p: core::marker::PhantomData<u8> }
+#[verifier::external_body]
+pub fn leftover_tokens_diagnostic(location: Location) -> Diagnostic { unimplemented!() }
+#[verifier::external_body]
+pub fn expected_selection_set_diagnostic(location: Location) -> Diagnostic { unimplemented!() }
+#[verifier::external_body]
+pub fn expected_literal_to_be_exported_diagnostic(literal_type: &str, suggested_const_export_name: SelectableName, location: Location) -> Diagnostic { unimplemented!() }
+/// description.rs: `parse_single_line_description(tokens).or_else(|| parse_multiline_description(tokens))`
+/// (a closure capturing `tokens` mutably, string slicing): contract assumed
+#[verifier::external_body]
+pub fn parse_optional_description(tokens: &mut PeekableLexer<'_>) -> (r: Option<WithEmbeddedLocation<Description>>)
+    requires old(tokens).inv(),
+    ensures final(tokens).inv(), final(tokens).same_literal(old(tokens)), final(tokens).monotone(old(tokens)),
+{ unimplemented!() }
+//@item rel=crates/isograph_lang_types/src/declarations/entrypoint_declaration.rs kind=struct name=EntrypointDeclaration prefix="pub"
+//@item rel=crates/isograph_lang_types/src/declarations/client_selectable_declaration.rs kind=struct name=ClientFieldDeclaration prefix="pub"
+//@item rel=crates/isograph_lang_types/src/declarations/client_selectable_declaration.rs kind=struct name=ClientPointerDeclaration prefix="pub"
+
+//@fn rel=crates/isograph_lang_parser/src/parse_iso_literal.rs name=parse_iso_entrypoint_declaration vis=pub ret=r serves=C07
+//@sub "dot\.map\(\|_\| \(\)\)" => "dot.map(|_d: IsographLangTokenKind| ())" n=1
+//@sub "\.map\(EntityNameWrapper\)" => ".map(|v| EntityNameWrapper(v))" n=*
+//@sub "\.map\(ClientScalarSelectableNameWrapper\)" => ".map(|v| ClientScalarSelectableNameWrapper(v))" n=*
+//@rw R16 R4
+//@contract
+    requires old(tokens).inv(),
+    ensures
+        final(tokens).inv(), //@O C07.O-5_parse_entrypoint_declaration_preserves_cursor_invariant
+        r is Ok ==> located_from(r->Ok_0, old(tokens)), //@O C07.O-5_entrypoint_declaration_span_well_formed
+//@closure 1 params="tokens: &mut PeekableLexer<'_>" ret="cr: Result<EntrypointDeclaration, Diagnostic>"
+            requires old(tokens).inv(),
+            ensures final(tokens).inv(), final(tokens).same_literal(old(tokens)), final(tokens).monotone(old(tokens)),
+                cr is Ok ==> final(tokens).progressed(old(tokens)),
+//@end
+
+//@fn rel=crates/isograph_lang_parser/src/parse_iso_literal.rs name=parse_client_field_declaration_inner vis=pub ret=r serves=C07
+//@sub "\.map\(EntityNameWrapper\)" => ".map(|v| EntityNameWrapper(v))" n=*
+//@rw R17 R16 R4
+//@sub "const_export_name\.intern\(\)" => "intern_str(const_export_name)" n=1
+//@contract
+    requires old(tokens).inv(),
+    ensures
+        final(tokens).inv(), //@O C07.O-5_parse_client_field_declaration_preserves_cursor_invariant
+        final(tokens).same_literal(old(tokens)), final(tokens).monotone(old(tokens)),
+        r is Ok ==> located_from(r->Ok_0, old(tokens)), //@O C07.O-5_client_field_declaration_span_well_formed
+//@closure 1 params="tokens: &mut PeekableLexer<'_>" ret="cr: Result<ClientFieldDeclaration, Diagnostic>"
+            requires old(tokens).inv(),
+            ensures final(tokens).inv(), final(tokens).same_literal(old(tokens)), final(tokens).monotone(old(tokens)),
+                cr is Ok ==> final(tokens).progressed(old(tokens)),
+//@end
+
+//@fn rel=crates/isograph_lang_parser/src/parse_iso_literal.rs name=parse_iso_client_field_declaration vis=pub ret=r serves=C07
+//@rw R4
+//@contract
+    requires old(tokens).inv(),
+    ensures
+        final(tokens).inv(), //@O C07.O-5_parse_iso_client_field_declaration_preserves_cursor_invariant
+        r is Ok ==> located_from(r->Ok_0, old(tokens)),
+//@end
+
+//@fn rel=crates/isograph_lang_parser/src/parse_iso_literal.rs name=parse_client_pointer_declaration_inner vis=pub ret=r serves=C07
+//@sub "\.map\(EntityNameWrapper\)" => ".map(|v| EntityNameWrapper(v))" n=*
+//@rw R17 R16 R4
+//@sub "const_export_name\.intern\(\)" => "intern_str(const_export_name)" n=1
+//@contract
+    requires old(tokens).inv(),
+    ensures
+        final(tokens).inv(), //@O C07.O-5_parse_client_pointer_declaration_preserves_cursor_invariant
+        final(tokens).same_literal(old(tokens)), final(tokens).monotone(old(tokens)),
+        r is Ok ==> located_from(r->Ok_0, old(tokens)), //@O C07.O-5_client_pointer_declaration_span_well_formed
+//@closure 1 params="tokens: &mut PeekableLexer<'_>" ret="cr: Result<ClientPointerDeclaration, Diagnostic>"
+            requires old(tokens).inv(),
+            ensures final(tokens).inv(), final(tokens).same_literal(old(tokens)), final(tokens).monotone(old(tokens)),
+                cr is Ok ==> final(tokens).progressed(old(tokens)),
+//@end
+
+//@fn rel=crates/isograph_lang_parser/src/parse_iso_literal.rs name=parse_iso_client_pointer_declaration vis=pub ret=r serves=C07
+//@rw R4
+//@contract
+    requires old(tokens).inv(),
+    ensures
+        final(tokens).inv(), //@O C07.O-5_parse_iso_client_pointer_declaration_preserves_cursor_invariant
+        r is Ok ==> located_from(r->Ok_0, old(tokens)),
 //@end
 
 // ---- string / block-string callbacks of the logos lexer (token_kind.rs) ---------------
